@@ -328,7 +328,7 @@ func evalLRU(c lruCase, trace bool) verdict {
 				why = fmt.Sprintf("was added more than %v (TTL %v) ago", shortSleep, shortTTL)
 			default:
 				if added[k] {
-					why = "was evicted (seen missing) and not added again"
+					why = "is no longer cached (evicted as least recently used, or seen missing) and was not added again"
 				}
 			}
 			failf("STALE-HIT", "op %d: %s(k%d) hit with value %d although the key %s", i, name, k, got, why)
@@ -574,6 +574,17 @@ func genLRU() *rapid.Generator[lruCase] {
 	})
 }
 
+// reduceLRU lists the cases that are one operation shorter.
+func reduceLRU(c lruCase) []lruCase {
+	var out []lruCase
+	for i := range c.Ops {
+		cc := c
+		cc.Ops = append(append([]lruOp{}, c.Ops[:i]...), c.Ops[i+1:]...)
+		out = append(out, cc)
+	}
+	return out
+}
+
 func TestC20LRU(t *testing.T) {
-	runRapid(t, "lru", "lru", genLRU(), evalLRU)
+	runRapid(t, "lru", "lru", genLRU(), evalLRU, reduceLRU)
 }
